@@ -156,6 +156,64 @@ func generateOnce(p *progen.Program, fs *MemFS, outDir string, go10 genOptsC10) 
 	return o
 }
 
+// HostMain is main.do (nil in worker binaries that are not built from package main).
+var HostMain func() error
+
+// cliOnce generates through the real command line (main.do) instead of calling the
+// generator: the thrift root is then derived from the files' locations, and the
+// whole sandbox (not only the output directory) is what is compared.
+func cliOnce(p *progen.Program, sandbox string, go10 genOptsC10) (o genOutcomeC10) {
+	defer func() {
+		if r := recover(); r != nil {
+			o = genOutcomeC10{panic: fmt.Sprintf("%v\n%s", r, debug.Stack())}
+		}
+	}()
+	os.RemoveAll(sandbox)
+	thrift := filepath.Join(sandbox, "thrift")
+	out := filepath.Join(sandbox, "out")
+	if err := os.MkdirAll(out, 0755); err != nil {
+		panic(err)
+	}
+	for i, f := range p.Files {
+		path := filepath.Join(thrift, filepath.FromSlash(f.RelPath()))
+		if err := os.MkdirAll(filepath.Dir(path), 0755); err != nil {
+			panic(err)
+		}
+		if err := os.WriteFile(path, []byte(p.Render(i)), 0644); err != nil {
+			panic(err)
+		}
+	}
+	args := []string{"thriftrw", "--out", out, "--pkg-prefix", "example.com/gen"}
+	for _, x := range []struct {
+		n string
+		b bool
+	}{{"no-recurse", go10.NoRecurse}, {"no-types", go10.NoTypes}, {"no-constants", go10.NoConstants}, {"no-service-helpers", go10.NoServiceHelpers},
+		{"no-embed-idl", go10.NoEmbedIDL}, {"no-zap", go10.NoZap}, {"no-version-check", go10.NoVersionCheck}, {"enum-text-marshal-strict", go10.Strict}} {
+		if x.b {
+			args = append(args, "--"+x.n)
+		}
+	}
+	if go10.OutputFile != "" {
+		args = append(args, "--output-file", go10.OutputFile)
+	}
+	args = append(args, filepath.Join(thrift, filepath.FromSlash(p.Files[0].RelPath())))
+	saved := os.Args
+	os.Args = args
+	err := HostMain()
+	os.Args = saved
+	if err != nil {
+		return genOutcomeC10{err: "cli: " + strings.ReplaceAll(err.Error(), sandbox, "$SB")}
+	}
+	o.ok = true
+	o.files = map[string]string{}
+	for k, v := range world.Snapshot(sandbox) {
+		if !strings.HasPrefix(k, "thrift/") && k != "thrift" {
+			o.files[k] = v
+		}
+	}
+	return o
+}
+
 // RunC10 is one C10 run: one (program, options), N map-order schedules.
 func RunC10(cfg simrt.Config, o world.Opts) *world.Result {
 	res := &world.Result{}
@@ -200,6 +258,13 @@ func RunC10(cfg simrt.Config, o world.Opts) *world.Result {
 			}
 		}
 		fs := render(p)
+		viaCLI := HostMain != nil && simrt.Flip("c10.via-cli", 0.3)
+		sandbox := filepath.Join(base, fmt.Sprintf("w%d", o.Worker), "c10cli")
+		if viaCLI {
+			res.Count("c10.programs-through-the-command-line", 1)
+			logf("generated through the command line (thrift root derived from the files)")
+			defer os.RemoveAll(sandbox)
+		}
 		N := 6
 		if o.Tier == "thorough" {
 			N = 16
@@ -218,7 +283,12 @@ func RunC10(cfg simrt.Config, o world.Opts) *world.Result {
 				mo = simrt.MapOrder(2 + ch("order.policy", 3))
 			}
 			s.SetMapOrder(mo)
-			got := generateOnce(p, fs, outDir, g)
+			var got genOutcomeC10
+			if viaCLI {
+				got = cliOnce(p, sandbox, g)
+			} else {
+				got = generateOnce(p, fs, outDir, g)
+			}
 			desc := fmt.Sprintf("schedule %d (map order %s)", i, orderNames[mo])
 			if got.ok {
 				logf("%s: generated %d paths", desc, len(got.files))
